@@ -271,7 +271,7 @@ func main() {
 			r.DistinctBulk(2)
 			return
 		}
-		r.Rule("pairs of texts: (1) all pairs of texts of up to N lines over {a,b,empty line} with and without final newline; (2) the same short texts around 0..8 common context lines (unique or repeated) to exercise hunk splitting; (3) random long texts (small vocabularies, unique lines, diff-syntax and format-string look-alikes, CR/NUL, lines of arbitrary bytes) and their line-edited variants. Non-trivial = the two texts differ (a diff is produced, parsed and applied both ways).")
+		r.Rule("pairs of texts: (1) all pairs of texts of up to N lines over {a,b,empty line} with and without final newline; (2) the same short texts around 0..8 common context lines (unique or repeated) to exercise hunk splitting; (3) every reordering of 2-7 (thorough 8) lines that occur once in both texts; (4) random long texts (small vocabularies, unique lines, diff-syntax and format-string look-alikes, CR/NUL, lines of arbitrary bytes) and their line-edited variants. Non-trivial = the two texts differ (a diff is produced, parsed and applied both ways).")
 		r.Assume("the strict parser/applier in checks/c08/udiff.go defines well-formedness; GNU patch 2.7 is a second applier on a tame alphabet")
 		W := runtime.NumCPU()
 		texts := allTexts([]string{"a", "b", ""}, r.Pick(4, 5))
@@ -342,6 +342,48 @@ func main() {
 		})
 		r.DistinctBulk(ctxCases)
 		r.Set("context_split_pairs", ctxCases)
+
+		// reorderings: every permutation of 2..7 (thorough: 8) lines that each occur once in both texts -
+		// the anchor selection sees nothing but moved unique lines - alone and between two repeated lines
+		maxPerm := r.Pick(7, 8)
+		var permCases int64
+		var permJobs [][]int
+		var gen func(cur []int, used int, n int)
+		gen = func(cur []int, used int, n int) {
+			if len(cur) == n {
+				permJobs = append(permJobs, append([]int{}, cur...))
+				return
+			}
+			for v := 0; v < n; v++ {
+				if used&(1<<v) == 0 {
+					gen(append(cur, v), used|1<<v, n)
+				}
+			}
+		}
+		for n := 2; n <= maxPerm; n++ {
+			gen(nil, 0, n)
+		}
+		vlib.Parallel(len(permJobs), W, func(i int) {
+			pm := permJobs[i]
+			var oldL, newL []string
+			for v := range pm {
+				oldL = append(oldL, fmt.Sprintf("line %c", 'a'+v))
+			}
+			for _, v := range pm {
+				newL = append(newL, fmt.Sprintf("line %c", 'a'+v))
+			}
+			a, b := textFrom(oldL, true), textFrom(newL, i%3 != 0)
+			checkPair(a, b, "a", "b")
+			if i%4 == 0 {
+				// the same between repeated lines (which are no anchors)
+				checkPair(cat([]byte("}\n\n"), a, []byte("}\n")), cat([]byte("}\n\n"), b, []byte("}\n")), "a", "b")
+			}
+			if !bytes.Equal(a, b) {
+				atomic.AddInt64(&permCases, 1)
+			}
+		})
+		r.DistinctBulk(permCases)
+		r.Set("reordering_pairs", permCases)
 
 		// random
 		nrand := r.Pick(20000, 400000)
